@@ -735,8 +735,18 @@ class Engine:
 
     def describe_path(s, st):
         sat, m = (True, st.model) if st.model is not None else s.check(st)
+        evs = []
+        for e in st.events:
+            if e[0] == 'ev':
+                row = []
+                for x in e[1:]:
+                    if is_sym(x):
+                        x = m.eval(x, model_completion=True)
+                        x = (1 if z3.is_true(x) else 0) if is_bool(x) else x.as_long()
+                    row.append(x)
+                evs.append(row)
         return dict(inputs=s.model_inputs(st, m), decisions=len(st.decisions), path_condition=[str(c)[:200] for c in st.pc[:12]],
-                    steps=st.steps)
+                    steps=st.steps, events=evs)
 
     def record_violation(s, st, kind, msg, extra=None):
         sat, m = s.check(st, extra)
